@@ -39,6 +39,42 @@ theorem buildCC_name {key : String} {reqs : List Req} {name : String} {spec : CC
       · cases h
       · cases h; exact ⟨rfl, rfl, rfl, rfl, rfl⟩
 
+theorem buildPool_used {fld : RangeField} {want : Fam} {hb : Int} {p : Pool} (h : buildPool fld want hb = some (some p)) :
+    p.used = [] := by
+  unfold buildPool at h
+  split at h
+  · cases h
+  · cases h
+  · split at h
+    · cases h
+    · split at h
+      · cases h
+      · simp only [Option.some.injEq] at h
+        rw [← h]; rfl
+
+theorem buildCC_used {key : String} {reqs : List Req} {name : String} {spec : CCSpec} {t : Bool} {c : CC}
+    (h : buildCC key reqs name spec t = some c) : ∀ f p, c.pool f = some p → p.used = [] := by
+  unfold buildCC at h
+  split at h
+  · cases h
+  · rename_i p4 h4
+    split at h
+    · cases h
+    · rename_i p6 h6
+      split at h
+      · cases h
+      · cases h
+        intro f p hp
+        cases f with
+        | v4 =>
+          have : p4 = some p := hp
+          subst this
+          exact buildPool_used h4
+        | v6 =>
+          have : p6 = some p := hp
+          subst this
+          exact buildPool_used h6
+
 theorem builtFrom_name {o : CCObj} {c : CC} (h : builtFrom o = some c) : c.name = o.name ∧ c.term = false ∧ c.assoc = [] := by
   unfold builtFrom at h
   split at h
@@ -352,7 +388,7 @@ theorem cci_createCC' {api view : List CCObj} {al al' : Alloc} (h : CCI api view
     (hoa : getCC api o.name = some oa) (hspec : oa.spec = o.spec)
     (hc : al.createCC o.name o.spec t = some al') :
     CCI api view al' ∧ (∀ x ∈ SH al, x ∈ SH al') ∧ (∀ c0, builtFrom o = some c0 → sh c0 ∈ SH al') ∧
-      (∀ c ∈ al'.ccs, c ∈ al.ccs ∨ (c.assoc = [] ∧ c.term = t)) := by
+      (∀ c ∈ al'.ccs, c ∈ al.ccs ∨ (c.assoc = [] ∧ c.term = t ∧ ∀ f p, c.pool f = some p → p.used = [])) := by
   have hname : oa.name = o.name := (mem_of_getCC hoa).2
   unfold Alloc.createCC at hc
   cases hsel : selectorOf o.spec.sel with
@@ -439,7 +475,7 @@ theorem cci_createCC' {api view : List CCObj} {al al' : Alloc} (h : CCI api view
           · simp only [List.mem_singleton] at hd
             subst hd
             obtain ⟨_, _, _, h4, h5⟩ := buildCC_name hb
-            exact Or.inr ⟨h5, h4⟩
+            exact Or.inr ⟨h5, h4, buildCC_used hb⟩
 
 theorem cci_createCC {api view : List CCObj} {al al' : Alloc} (h : CCI api view al) (o : CCObj)
     (hv : getCC view o.name = some o) (hd : o.deleting = false)
@@ -635,7 +671,7 @@ theorem cci_step {s : Sys} (h : CCI s.api.ccs s.ccView s.alloc) (hone : OnePer.N
 structure BC (a0 : List CCObj) (t : Sys) : Prop where
   sim : ∀ n o0, getCC a0 n = some o0 → ∃ o, getCC t.api.ccs n = some o ∧ o.spec = o0.spec
   cci : CCI t.api.ccs [] t.alloc
-  fresh : ∀ c ∈ t.alloc.ccs, c.assoc = [] ∧ c.term = false
+  fresh : ∀ c ∈ t.alloc.ccs, c.assoc = [] ∧ c.term = false ∧ ∀ f p, c.pool f = some p → p.used = []
 
 theorem createCC_none_builtFrom {al : Alloc} {o : CCObj} {t : Bool} (h : al.createCC o.name o.spec t = none) : builtFrom o = none := by
   unfold Alloc.createCC at h
@@ -676,7 +712,7 @@ theorem bc_create {a0 : List CCObj} {t : Sys} (h : BC a0 t) (o : CCObj) (ho : ge
     simp only
     obtain ⟨oa, hoa, hspec⟩ := h.sim _ o ho
     obtain ⟨h1, h2, h3, h4⟩ := cci_createCC' h.cci o oa false hoa hspec hc
-    have hfresh : ∀ c ∈ al.ccs, c.assoc = [] ∧ c.term = false := by
+    have hfresh : ∀ c ∈ al.ccs, c.assoc = [] ∧ c.term = false ∧ ∀ f p, c.pool f = some p → p.used = [] := by
       intro c hcm
       rcases h4 c hcm with hcm | hcm
       · exact h.fresh c hcm
@@ -786,13 +822,14 @@ theorem inUse_le {c c' : CC} (h : CCLe c c') {cd : Cidr} (hb : InUse c cd) : InU
     have hle : PoolLe p p' := this
     exact ⟨p', k, hp', hle.2.2 k hk, by rw [hle.1]; exact hbk⟩
 
-/-- occupying, in an entry, CIDRs that are blocks of that entry succeeds and marks them -/
+/-- occupying, in an entry, CIDRs that are blocks of that entry succeeds and marks them — and nothing else -/
 theorem occupyList_blocks : ∀ (cs : List Cidr) (c : CC), c.WF → (∀ cd ∈ cs, IsBlock c cd) →
     (c.occupyList cs).2 = true ∧ CCLe c (c.occupyList cs).1 ∧ (c.occupyList cs).1.WF ∧
-    ∀ cd ∈ cs, InUse (c.occupyList cs).1 cd := by
+    (∀ cd ∈ cs, InUse (c.occupyList cs).1 cd) ∧
+    (∀ cd', InUse (c.occupyList cs).1 cd' → InUse c cd' ∨ cd' ∈ cs) := by
   intro cs
   induction cs with
-  | nil => intro c hc _; exact ⟨rfl, CCLe.refl c, hc, fun _ h => by cases h⟩
+  | nil => intro c hc _; exact ⟨rfl, CCLe.refl c, hc, (fun _ h => by cases h), fun _ h => Or.inl h⟩
   | cons cd rest ih =>
     intro c hc hall
     obtain ⟨p, k, hp, hkm, hb⟩ := hall cd (List.mem_cons_self ..)
@@ -820,12 +857,28 @@ theorem occupyList_blocks : ∀ (cs : List Cidr) (c : CC), c.WF → (∀ cd ∈ 
     rw [hco]
     simp only
     have hcw' : (c.setPool cd.fam p').WF := CC.WF_setPool hc hok'
-    obtain ⟨h1, h2, h3, h4⟩ := ih _ hcw' (fun cd2 hcd2 => isBlock_le hcle (hall cd2 (List.mem_cons_of_mem _ hcd2)))
-    refine ⟨h1, CCLe.trans hcle h2, h3, ?_⟩
-    intro cd2 hcd2
-    rcases List.mem_cons.mp hcd2 with rfl | hcd2
-    · exact inUse_le h2 ⟨p', k, CC.pool_setPool_same _ _ _, hkin, by rw [hg]; exact hb⟩
-    · exact h4 cd2 hcd2
+    obtain ⟨h1, h2, h3, h4, h5⟩ := ih _ hcw' (fun cd2 hcd2 => isBlock_le hcle (hall cd2 (List.mem_cons_of_mem _ hcd2)))
+    refine ⟨h1, CCLe.trans hcle h2, h3, ?_, ?_⟩
+    · intro cd2 hcd2
+      rcases List.mem_cons.mp hcd2 with rfl | hcd2
+      · exact inUse_le h2 ⟨p', k, CC.pool_setPool_same _ _ _, hkin, by rw [hg]; exact hb⟩
+      · exact h4 cd2 hcd2
+    · intro cd' hu
+      rcases h5 cd' hu with ⟨q, k', hq, hk', hb'⟩ | hin
+      · by_cases hf : cd'.fam = cd.fam
+        · rw [hf, CC.pool_setPool_same] at hq
+          cases hq
+          rcases (hm k').mp hk' with hold | ⟨hk'm, hnd⟩
+          · exact Or.inl ⟨p, k', by rw [hf]; exact hp, hold, by rw [← hg]; exact hb'⟩
+          · right
+            have hkk : k' = k := by
+              false_or_by_contra; rename_i hne
+              exact hnd (C13.blocks_disjoint hok.2.1 hk'm hkm hne)
+            rw [← hb', hg, hkk, hb]
+            exact List.mem_cons_self ..
+        · rw [CC.pool_setPool_other _ _ _ _ hf] at hq
+          exact Or.inl ⟨q, k', hq, hk', hb'⟩
+      · exact Or.inr (List.mem_cons_of_mem _ hin)
 
 theorem Alloc.set_get_self {a : Alloc} {j : Nat} {c : CC} (h : a.get? j = some c) : a.set j c = a := by
   unfold Alloc.set Alloc.get? at *
@@ -842,7 +895,8 @@ theorem Alloc.set_get_self {a : Alloc} {j : Nat} {c : CC} (h : a.get? j = some c
 the list, and ranges are pairwise disjoint, exactly entry `i₀` takes them -/
 theorem occupyNode_fresh (name : String) (cidrs : List Cidr) (i₀ : Nat) (hne : cidrs ≠ []) :
     ∀ (l : List Nat) (a : Alloc) (c₀ : CC), a.WF → RangesDisj a → a.get? i₀ = some c₀ → (∀ cd ∈ cidrs, IsBlock c₀ cd) → i₀ ∈ l →
-      ∃ c₁, a.occupyNode name cidrs l = (a.set i₀ (c₁.addAssoc name), true) ∧ CCLe c₀ c₁ ∧ c₁.WF ∧ ∀ cd ∈ cidrs, InUse c₁ cd := by
+      ∃ c₁, a.occupyNode name cidrs l = (a.set i₀ (c₁.addAssoc name), true) ∧ CCLe c₀ c₁ ∧ c₁.WF ∧ (∀ cd ∈ cidrs, InUse c₁ cd) ∧
+        ∀ cd', InUse c₁ cd' → InUse c₀ cd' ∨ cd' ∈ cidrs := by
   intro l
   induction l with
   | nil => intro a c₀ _ _ _ _ hm; cases hm
@@ -853,13 +907,13 @@ theorem occupyNode_fresh (name : String) (cidrs : List Cidr) (i₀ : Nat) (hne :
     · subst hj
       rw [hg0]
       simp only
-      obtain ⟨h1, h2, h3, h4⟩ := occupyList_blocks cidrs c₀ (ha j c₀ hg0) hblk
+      obtain ⟨h1, h2, h3, h4, h5⟩ := occupyList_blocks cidrs c₀ (ha j c₀ hg0) hblk
       cases hr : c₀.occupyList cidrs with
       | mk c' okk =>
-        rw [hr] at h1 h2 h3 h4
-        simp only at h1 h2 h3 h4
+        rw [hr] at h1 h2 h3 h4 h5
+        simp only at h1 h2 h3 h4 h5
         subst h1
-        exact ⟨c', rfl, h2, h3, h4⟩
+        exact ⟨c', rfl, h2, h3, h4, h5⟩
     · have hm' : i₀ ∈ rest := by
         rcases List.mem_cons.mp hm with h | h
         · exact absurd h.symm hj
@@ -998,7 +1052,7 @@ def Home (a1 : Alloc) (v : NodeObj) : Prop :=
     ∀ cd ∈ v.cidrs, IsBlock c cd
 
 /-- loop invariant of the start-up loop over the listed nodes -/
-structure BN (a1 al : Alloc) (done : List NodeObj) : Prop where
+structure BN (a1 al : Alloc) (done : List NodeObj) (svcs : List Cidr) : Prop where
   wf : al.WF
   sh : SH al = SH a1
   nt : ∀ i c, al.get? i = some c → c.term = false
@@ -1006,14 +1060,20 @@ structure BN (a1 al : Alloc) (done : List NodeObj) : Prop where
     (∀ cd ∈ v.cidrs, UsedAt al i cd) ∧ Elig al i v.labels
   uq : ∀ x i j, Claims al x i → Claims al x j → i = j
   sv : ∀ v ∈ done, v.deleting = false → v.cidrs ≠ [] → ∃ i, Claims al v.name i
+  tight : ∀ j cd, UsedAt al j cd → (∃ x, Claims al x j ∧ ∃ v ∈ done, v.name = x ∧ cd ∈ v.cidrs) ∨ (∃ svc ∈ svcs, ¬ cd.Disjoint svc)
 
-theorem bn_step {a1 al : Alloc} {done : List NodeObj} (h : BN a1 al done) (hrd : RangesDisj a1) (n : NodeObj)
+theorem bn_step {a1 al : Alloc} {done : List NodeObj} {svcs : List Cidr} (h : BN a1 al done svcs) (hrd : RangesDisj a1) (n : NodeObj)
     (hfresh : ∀ v ∈ done, v.name ≠ n.name) (hj : n.junk = false)
     (hhome : n.deleting = false → n.cidrs ≠ [] → Home a1 n) :
-    BN a1 (if (!n.hasCidrs || n.deleting) = true then al else (occupyCIDRs al n).1) (done ++ [n]) := by
+    BN a1 (if (!n.hasCidrs || n.deleting) = true then al else (occupyCIDRs al n).1) (done ++ [n]) svcs := by
   split
   · rename_i hskip
-    refine ⟨h.wf, h.sh, h.nt, ?_, h.uq, ?_⟩
+    refine ⟨h.wf, h.sh, h.nt, ?_, h.uq, ?_, ?_⟩
+    rotate_left 2
+    · intro j cd hu
+      rcases h.tight j cd hu with ⟨x, hc, v, hv, hvn, hcd⟩ | hs
+      · exact Or.inl ⟨x, hc, v, List.mem_append_left _ hv, hvn, hcd⟩
+      · exact Or.inr hs
     · intro x i hc
       obtain ⟨v, hv, rest⟩ := h.cl x i hc
       exact ⟨v, List.mem_append_left _ hv, rest⟩
@@ -1046,7 +1106,7 @@ theorem bn_step {a1 al : Alloc} {done : List NodeObj} (h : BN a1 al done) (hrd :
     have hel' : (matchCIDR c'.reqs n.labels).1 = true ∨ (c'.key == defaultKey) = true := by rw [hk, hr]; exact hel
     have hmem : i₀ ∈ al.ordered n.labels true := mem_ordered_true_of_elig hg' (h.nt i₀ c' hg') hel'
     have hrd' : RangesDisj al := rangesDisj_of_SH h.sh.symm hrd
-    obtain ⟨c₁, hocc, hle, hwf1, huse⟩ := occupyNode_fresh n.name n.cidrs i₀ hne _ al c' h.wf hrd' hg' hblk' hmem
+    obtain ⟨c₁, hocc, hle, hwf1, huse, hexact⟩ := occupyNode_fresh n.name n.cidrs i₀ hne _ al c' h.wf hrd' hg' hblk' hmem
     have hres : (occupyCIDRs al n).1 = al.set i₀ (c₁.addAssoc n.name) := by
       unfold occupyCIDRs
       simp only
@@ -1073,7 +1133,26 @@ theorem bn_step {a1 al : Alloc} {done : List NodeObj} (h : BN a1 al done) (hrd :
       intro cd hcd
       obtain ⟨p, k, hp, hk', hb⟩ := huse cd hcd
       rw [hset]; exact (usedAt_addAssoc hg2 _ _ _).mpr ⟨c₁, p, k, hg2, hp, hk', hb⟩
-    refine ⟨?_, ?_, ?_, ?_, ?_, ?_⟩
+    refine ⟨?_, ?_, ?_, ?_, ?_, ?_, ?_⟩
+    rotate_left 6
+    · -- what is in use afterwards was in use before, or is one of the node's CIDRs in entry `i₀`
+      intro j cd hu
+      rw [hset, usedAt_addAssoc hg2] at hu
+      have hcase : UsedAt al j cd ∨ (j = i₀ ∧ cd ∈ n.cidrs) := by
+        obtain ⟨d, p, k, hd, hp, hk, hb⟩ := hu
+        by_cases hj' : i₀ = j
+        · subst hj'
+          rw [hg2] at hd; cases hd
+          rcases hexact cd ⟨p, k, hp, hk, hb⟩ with ⟨p0, k0, hp0, hk0, hb0⟩ | hin
+          · exact Or.inl ⟨c', p0, k0, hg', hp0, hk0, hb0⟩
+          · exact Or.inr ⟨rfl, hin⟩
+        · rw [Alloc.get?_set_ne _ _ _ _ hj'] at hd
+          exact Or.inl ⟨d, p, k, hd, hp, hk, hb⟩
+      rcases hcase with hold | ⟨rfl, hin⟩
+      · rcases h.tight j cd hold with ⟨x, hc, v, hv, hvn, hcd⟩ | hs
+        · exact Or.inl ⟨x, (hclaims x j).mpr (Or.inl hc), v, List.mem_append_left _ hv, hvn, hcd⟩
+        · exact Or.inr hs
+      · exact Or.inl ⟨n.name, (hclaims _ _).mpr (Or.inr ⟨rfl, rfl⟩), n, List.mem_append_right _ (List.mem_singleton.mpr rfl), rfl, hin⟩
     · exact Alloc.WF_set h.wf (C09.addAssoc_WF hwf1 _)
     · rw [SH_set hg' (by rw [sh_addAssoc]; exact sh_of_CCLe hle)]; exact h.sh
     · intro i d hd
@@ -1109,10 +1188,10 @@ theorem bn_step {a1 al : Alloc} {done : List NodeObj} (h : BN a1 al done) (hrd :
         subst hv
         exact ⟨i₀, (hclaims _ _).mpr (Or.inr ⟨rfl, rfl⟩)⟩
 
-theorem bootNodes_spec (a1 : Alloc) (hrd : RangesDisj a1) : ∀ (l : List NodeObj) (al : Alloc) (done : List NodeObj),
-    BN a1 al done → (l.map (·.name)).Nodup → (∀ v ∈ done, ∀ n ∈ l, v.name ≠ n.name) →
+theorem bootNodes_spec (a1 : Alloc) (svcs : List Cidr) (hrd : RangesDisj a1) : ∀ (l : List NodeObj) (al : Alloc) (done : List NodeObj),
+    BN a1 al done svcs → (l.map (·.name)).Nodup → (∀ v ∈ done, ∀ n ∈ l, v.name ≠ n.name) →
     (∀ n ∈ l, n.junk = false ∧ (n.deleting = false → n.cidrs ≠ [] → Home a1 n)) →
-    BN a1 (bootNodes al l) (done ++ l) := by
+    BN a1 (bootNodes al l) (done ++ l) svcs := by
   intro l
   induction l with
   | nil => intro al done h _ _ _; rw [List.append_nil]; exact h
@@ -1188,6 +1267,87 @@ theorem filterAll_fresh : ∀ (svcs : List Cidr) (al : Alloc), (∀ c ∈ al.ccs
     obtain ⟨c0, hc0, rfl⟩ := hc
     obtain ⟨h1, h2⟩ := occupyService_static c0 sv
     rw [h1, h2]; exact h c0 hc0
+
+/-- what the service filter marks in one entry: blocks that meet the service range, nothing else -/
+theorem occupyService_used {c : CC} (hc : c.WF) {svc : Cidr} (hsvc : svc.WF) {f : Fam} {p' : Pool}
+    (hp' : (c.occupyService svc).pool f = some p') :
+    ∃ p, c.pool f = some p ∧ p'.geo = p.geo ∧ ∀ k ∈ p'.used, k ∈ p.used ∨ ¬ (goBlock p.geo k).Disjoint svc := by
+  have hsame : ∀ p, c.pool f = some p → ∃ p0, c.pool f = some p0 ∧ p.geo = p0.geo ∧
+      ∀ k ∈ p.used, k ∈ p0.used ∨ ¬ (goBlock p0.geo k).Disjoint svc := fun p hp => ⟨p, hp, rfl, fun k hk => Or.inl hk⟩
+  unfold CC.occupyService at hp'
+  cases hq : c.pool svc.fam with
+  | none => rw [hq] at hp'; exact hsame p' hp'
+  | some q =>
+    rw [hq] at hp'
+    simp only at hp'
+    split at hp'
+    · cases ho : c.occupy svc with
+      | none => rw [ho] at hp'; exact hsame p' hp'
+      | some c' =>
+        rw [ho] at hp'
+        simp only at hp'
+        unfold CC.occupy at ho
+        rw [hq] at ho
+        simp only at ho
+        cases hoq : q.occupy svc with
+        | none => rw [hoq] at ho; cases ho
+        | some q' =>
+          rw [hoq] at ho
+          cases ho
+          by_cases hf : f = svc.fam
+          · subst hf
+            rw [CC.pool_setPool_same] at hp'
+            cases hp'
+            have hok := hc _ q hq
+            obtain ⟨_, hg, _, _, hm⟩ := (C14.occupy_refines hok.2.1 hok.1 hsvc).2 p' hoq
+            refine ⟨q, hq, hg, ?_⟩
+            intro k hk
+            rcases (hm k).mp hk with hk | ⟨_, hnd⟩
+            · exact Or.inl hk
+            · exact Or.inr hnd
+          · rw [CC.pool_setPool_other _ _ _ _ hf] at hp'
+            exact hsame p' hp'
+    · exact hsame p' hp'
+
+/-- every block in use meets one of the service ranges `S` -/
+def SvcOnly (a : Alloc) (S : List Cidr) : Prop := ∀ j cd, UsedAt a j cd → ∃ svc ∈ S, ¬ cd.Disjoint svc
+
+theorem svcOnly_filterService {a : Alloc} (ha : a.WF) {S : List Cidr} (h : SvcOnly a S) {svc : Cidr} (hsvc : svc.WF) :
+    SvcOnly (a.filterService svc) (svc :: S) := by
+  rintro j cd ⟨c', p', k, hg, hp, hk, hb⟩
+  have hget : ∃ c, a.get? j = some c ∧ c' = c.occupyService svc := by
+    unfold Alloc.filterService Alloc.get? at *
+    simp only [List.getElem?_map] at hg
+    cases hc : a.ccs[j]? with
+    | none => rw [hc] at hg; cases hg
+    | some c => rw [hc] at hg; simp only [Option.map_some, Option.some.injEq] at hg; exact ⟨c, rfl, hg.symm⟩
+  obtain ⟨c, hc, rfl⟩ := hget
+  obtain ⟨p, hp0, hgeo, hused⟩ := occupyService_used (ha j c hc) hsvc hp
+  rcases hused k hk with hk0 | hnd
+  · obtain ⟨sv, hsv, hnd⟩ := h j cd ⟨c, p, k, hc, hp0, hk0, by rw [← hgeo]; exact hb⟩
+    exact ⟨sv, List.mem_cons_of_mem _ hsv, hnd⟩
+  · exact ⟨svc, List.mem_cons_self .., by rw [← hb, hgeo]; exact hnd⟩
+
+theorem svcOnly_filterAll : ∀ (svcs : List Cidr) (a : Alloc) (S : List Cidr), a.WF → (∀ sv ∈ svcs, sv.WF) → SvcOnly a S →
+    ∀ j cd, UsedAt (svcs.foldl (fun a sv => a.filterService sv) a) j cd → ∃ svc, (svc ∈ svcs ∨ svc ∈ S) ∧ ¬ cd.Disjoint svc := by
+  intro svcs
+  induction svcs with
+  | nil =>
+    intro a S _ _ h j cd hu
+    obtain ⟨sv, hsv, hnd⟩ := h j cd hu
+    exact ⟨sv, Or.inr hsv, hnd⟩
+  | cons sv rest ih =>
+    intro a S ha hw h j cd hu
+    have hsv := hw sv (List.mem_cons_self ..)
+    have hwf1 := (C09.filterService_covers a ha sv hsv).1
+    obtain ⟨x, hx, hnd⟩ := ih (a.filterService sv) (sv :: S) hwf1 (fun s hs => hw s (List.mem_cons_of_mem _ hs))
+      (svcOnly_filterService ha h hsv) j cd hu
+    refine ⟨x, ?_, hnd⟩
+    rcases hx with hx | hx
+    · exact Or.inl (List.mem_cons_of_mem _ hx)
+    · rcases List.mem_cons.mp hx with rfl | hx
+      · exact Or.inl (List.mem_cons_self ..)
+      · exact Or.inr hx
 
 theorem createClusterCIDR_graves (s : Sys) (o : CCObj) (t : Bool) (w : WOut) :
     (createClusterCIDR s o t w).1.api.graves = s.api.graves := by
@@ -1267,7 +1427,8 @@ theorem mem_getElem? {l : List CC} {c : CC} (h : c ∈ l) : ∃ i : Nat, l[i]? =
 theorem inv_boot {s : Sys} (h : Inv s) (hc : CCI s.api.ccs s.ccView s.alloc) (svcs : List Cidr) (ws : List WOut)
     (hsv : ∀ sv ∈ svcs, sv.WF) (hspec : ∀ o ∈ s.api.ccs, C09.SpecOK o.spec)
     (hrd : RangesDisj (boot s svcs ws).1.alloc) :
-    Inv (boot s svcs ws).1 ∧ CCI (boot s svcs ws).1.api.ccs (boot s svcs ws).1.ccView (boot s svcs ws).1.alloc := by
+    Inv (boot s svcs ws).1 ∧ CCI (boot s svcs ws).1.api.ccs (boot s svcs ws).1.ccView (boot s svcs ws).1.alloc ∧
+      Tight (boot s svcs ws).1 := by
   -- the stages of `boot`
   let s0 : Sys := { s with alloc := ⟨[]⟩, nodeView := [], ccView := [], nodeQ := [], ccQ := [], svcs := svcs }
   let s1 : Sys := (bootCCs s0 (sortCCObjs s.api.ccs) ws []).1
@@ -1286,21 +1447,25 @@ theorem inv_boot {s : Sys} (h : Inv s) (hc : CCI s.api.ccs s.ccView s.alloc) (sv
   obtain ⟨hbc1, _, hcomplete⟩ := bootCCs_spec s.api.ccs hc.gen hc.delFin (sortCCObjs s.api.ccs) s0 ws [] hbc0
     (sortCCObjs_get s.api.ccs)
   have hinit : (Alloc.mk []).WF := by intro j c hj; simp [Alloc.get?] at hj
-  obtain ⟨hwf1, _, hnodes1⟩ := C09.bootCCs_WF (sortCCObjs s.api.ccs) s0 ws [] hinit
+  obtain ⟨hwf1, hsvcs1, hnodes1⟩ := C09.bootCCs_WF (sortCCObjs s.api.ccs) s0 ws [] hinit
     (fun o ho => hspec o (C09.mem_sortCCObjs _ _ ho))
   have hnodes : s1.api.nodes = s.api.nodes := hnodes1
   have hgraves : s1.api.graves = s.api.graves := bootCCs_graves _ _ _ _
   -- stage 2
   obtain ⟨hwfA, _, _⟩ := C09.filterAll_covers svcs s1.alloc hwf1 hsv
   have hshA : SH al1 = SH s1.alloc := SH_filterAll svcs s1.alloc
-  have hfreshA := filterAll_fresh svcs s1.alloc hbc1.fresh
+  have hfreshA := filterAll_fresh svcs s1.alloc (fun c hc => ⟨(hbc1.fresh c hc).1, (hbc1.fresh c hc).2.1⟩)
   have hsh2 : SH al2 = SH al1 := SH_bootNodes L al1
   have hrd1 : RangesDisj al1 := by
     rw [hboot] at hrd
     exact rangesDisj_of_SH hsh2 hrd
   -- stage 3: the loop
-  have hbn0 : BN al1 al1 [] := by
-    refine ⟨hwfA, rfl, ?_, ?_, ?_, ?_⟩
+  have hsvc0 : SvcOnly s1.alloc [] := by
+    rintro j cd ⟨c, p, k, hg, hp, hk, _⟩
+    rw [(hbc1.fresh c (List.mem_of_getElem? hg)).2.2 _ p hp] at hk; cases hk
+  have hsvcA := svcOnly_filterAll svcs s1.alloc [] hwf1 hsv hsvc0
+  have hbn0 : BN al1 al1 [] svcs := by
+    refine ⟨hwfA, rfl, ?_, ?_, ?_, ?_, ?_⟩
     · intro i c hg
       exact (hfreshA c (List.mem_of_getElem? hg)).2
     · rintro x i ⟨c, hg, hx⟩
@@ -1308,6 +1473,11 @@ theorem inv_boot {s : Sys} (h : Inv s) (hc : CCI s.api.ccs s.ccView s.alloc) (sv
     · rintro x i j ⟨c, hg, hx⟩
       rw [(hfreshA c (List.mem_of_getElem? hg)).1] at hx; cases hx
     · intro v hv; cases hv
+    · intro j cd hu
+      obtain ⟨sv, hsvm, hnd⟩ := hsvcA j cd hu
+      rcases hsvm with hsvm | hsvm
+      · exact Or.inr ⟨sv, hsvm, hnd⟩
+      · cases hsvm
   have hLmem : ∀ n ∈ L, n ∈ s.api.nodes := fun n hn => C09.mem_sortNodeObjs _ _ hn
   have hhome : ∀ n ∈ L, n.junk = false ∧ (n.deleting = false → n.cidrs ≠ [] → Home al1 n) := by
     intro n hn
@@ -1331,8 +1501,8 @@ theorem inv_boot {s : Sys} (h : Inv s) (hc : CCI s.api.ccs s.ccView s.alloc) (sv
     rw [hg] at hg'; cases hg'
     have hkm : k < p.max := (h.wf i c hg _ p hp).1.bound k hkin
     exact isBlock_of_sh hdc ⟨p, k, hp, hkm, hb⟩
-  have hbn : BN al1 al2 L := by
-    have := bootNodes_spec al1 hrd1 L al1 [] hbn0 (sortNodeObjs_nodup h.nodupApi) (fun v hv => by cases hv) hhome
+  have hbn : BN al1 al2 L svcs := by
+    have := bootNodes_spec al1 svcs hrd1 L al1 [] hbn0 (sortNodeObjs_nodup h.nodupApi) (fun v hv => by cases hv) hhome
     simpa using this
   -- names identify the listed nodes
   have hLcomplete : ∀ v ∈ s.api.nodes, v ∈ L := fun v hv => sortNodeObjs_complete h.nodupApi hv
@@ -1350,7 +1520,21 @@ theorem inv_boot {s : Sys} (h : Inv s) (hc : CCI s.api.ccs s.ccView s.alloc) (sv
       exact List.mem_append_left _ (List.mem_append_left _ hw')
     · exact List.mem_append_right _ hw
   have hno := h.noOverlap
-  constructor
+  refine ⟨?_, ?_, ?_⟩
+  rotate_left 2
+  · rw [hboot]
+    intro j cd hu
+    rcases hbn.tight j cd hu with ⟨x, hc', v, hv, hvn, hcd⟩ | ⟨sv, hsvm, hnd⟩
+    · left
+      refine ⟨x, hc', v, ?_, hvn, hcd⟩
+      show v ∈ s1.api.nodes ++ s1.api.graves
+      rw [hnodes]
+      exact List.mem_append_left _ (hLmem v hv)
+    · right
+      refine ⟨sv, ?_, hnd⟩
+      show sv ∈ s1.svcs
+      have : s1.svcs = svcs := hsvcs1
+      rw [this]; exact hsvm
   · rw [hboot]
     constructor
     · exact hbn.wf
@@ -1446,7 +1630,7 @@ theorem inv3_step {s : Sys} (h : Inv3 s) (e : Ev) (hf : Frag3 s e) : Inv3 (step 
   by_cases hb : ∃ sv ws, e = .boot sv ws
   · obtain ⟨sv, ws, rfl⟩ := hb
     obtain ⟨h1, h2, h3⟩ := hf
-    obtain ⟨k1, k2⟩ := inv_boot h.inv h.cci sv ws h1 h2 h3
+    obtain ⟨k1, k2, _⟩ := inv_boot h.inv h.cci sv ws h1 h2 h3
     exact ⟨k1, k2, OnePer.nodup_step h.one _⟩
   · have hnb : ∀ sv ws, e ≠ .boot sv ws := fun sv ws he => hb ⟨sv, ws, he⟩
     exact ⟨inv_step h.inv e (frag_of_frag3 hnb hf), cci_step h.cci h.one e hnb hf, OnePer.nodup_step h.one e⟩
@@ -1497,6 +1681,39 @@ theorem restart_claims_listed {s : Sys} (h : Inv3 s) (svcs : List Cidr) (ws : Li
   rcases List.mem_append.mp hv with hv | hv
   · exact ⟨v, hv, hvn, hvc, hvu⟩
   · exact absurd (by rw [hvn, hwn]) (k'.gravesFresh v hv w hw)
+
+/-! ## C04 across restarts -/
+
+/-- the invariant of C03 together with "every used block is justified" (C04) -/
+structure Inv4 (s : Sys) : Prop where
+  inv3 : Inv3 s
+  tight : Tight s
+
+theorem inv4_step {s : Sys} (h : Inv4 s) (e : Ev) (hf : Frag3 s e) : Inv4 (step s e).1 := by
+  refine ⟨inv3_step h.inv3 e hf, ?_⟩
+  by_cases hb : ∃ sv ws, e = .boot sv ws
+  · obtain ⟨sv, ws, rfl⟩ := hb
+    obtain ⟨h1, h2, h3⟩ := hf
+    exact (inv_boot h.inv3.inv h.inv3.cci sv ws h1 h2 h3).2.2
+  · have hnb : ∀ sv ws, e ≠ .boot sv ws := fun sv ws he => hb ⟨sv, ws, he⟩
+    exact tight_step h.inv3.inv h.tight e (frag_of_frag3 hnb hf)
+
+theorem inv4_run : ∀ (evs : List Ev) (s : Sys), Inv4 s → Frag3All s evs → Inv4 (run s evs) := by
+  intro evs
+  induction evs with
+  | nil => intro s h _; exact h
+  | cons e rest ih =>
+    intro s h hf
+    have : run s (e :: rest) = run (step s e).1 rest := by simp [run]
+    rw [this]
+    exact ih _ (inv4_step h e hf.1) hf.2
+
+/-- **right after a restart every block in use is a pod CIDR of a listed node associated with that entry, or meets
+a configured service range** — whatever the crashed incarnation had reserved, leaked or kept for deleted nodes is free -/
+theorem restart_withholds_only_justified {s : Sys} (h : Inv3 s) (svcs : List Cidr) (ws : List WOut)
+    (hf : Frag3 s (.boot svcs ws)) : Tight (boot s svcs ws).1 := by
+  obtain ⟨h1, h2, h3⟩ := hf
+  exact (inv_boot h.inv h.cci svcs ws h1 h2 h3).2.2
 
 /-! ## a crash right after a node write whose answer never arrived
 
